@@ -193,10 +193,12 @@ def corpus_items(tier):
     its = []
     for i, v in enumerate(vals[::step]):
         for tag, b in corpus.pickles_of(v, unframed=False):
-            its.append((f"plain[{i}]/{tag}", b))
+            if len(b) <= 600:  # tracing is quadratic in the size of a container; long pickles add cost, not behaviours
+                its.append((f"plain[{i}]/{tag}", b))
     for i, v in enumerate(corpus.object_values()[:-1]):
         for tag, b in corpus.pickles_of(v, unframed=False):
-            its.append((f"obj[{i}]/{tag}", b))
+            if len(b) <= 600:
+                its.append((f"obj[{i}]/{tag}", b))
     return its
 
 
@@ -240,7 +242,7 @@ def check(tier):
     rep = Report(PROP, tier)
     depth = 4 if tier == "thorough" else 3
     L = 4 if tier == "thorough" else 3
-    cfg = e1.Config(PROP, sigma(), depth, [], [repeat_oracle], split=1, opts={"seqlen": L - 1, "fine": "summaries" if tier == "quick" else True})
+    cfg = e1.Config(PROP, sigma(), depth, [], [repeat_oracle], split=1, opts={"seqlen": L, "fine": True})
     e1.run(cfg, rep)
     # deeper programs over a narrow alphabet (non-empty DICT/LIST/FROZENSET need >= 4 symbols), shorter histories
     from .c03 import _fold
